@@ -833,6 +833,12 @@ impl<K: KeyT> Runner for SetRunner<K> {
         (size, std::mem::align_of::<(K, ())>(), K::DROP, K::IDS)
     }
     fn op(&mut self, tgt: &str, name: &str, args: &[&str]) -> String {
+        let cc_before = tape::with(|t| t.cc);
+        let clone_src_len = match name {
+            "clone_to_other" => self.get(tgt).len(),
+            "clone_from" => self.get(if tgt == "a" { "b" } else { "a" }).len(),
+            _ => 0,
+        };
         let cap_before = {
             let m = self.get(tgt);
             (m.len(), m.capacity(), m.allocation_size())
@@ -851,6 +857,9 @@ impl<K: KeyT> Runner for SetRunner<K> {
             let cap_after = (m.len(), m.capacity(), m.allocation_size());
             if let Some(why) = crate::exec::cap_oracle(name, args, &ret, cap_before, cap_after) {
                 ret.push_str(&format!(" ORACLE-CAP({})", why.replace([' ', '(', ')'], "_")));
+            }
+            if let Some(why) = crate::exec::clone_count_oracle(name, &ret, cc_before, clone_src_len) {
+                ret.push_str(&format!(" ORACLE-REF({})", why.replace([' ', '(', ')'], "_")));
             }
         }
         let evs = tape::peek_events();
